@@ -37,6 +37,18 @@ ResponsePath = List[Union[str, int]]
 GroupedFields = Dict[str, List[ast.Field]]
 
 
+def _copy_error(err: GraphQLLocatedError) -> GraphQLLocatedError:
+    cls = type(err)
+    copied = cls.__new__(cls)
+    copied.args = err.args
+    copied.__dict__.update(err.__dict__)
+    copied.__cause__ = err.__cause__
+    copied.__context__ = err.__context__
+    copied.__traceback__ = err.__traceback__
+    copied.nodes = list(err.nodes)
+    return copied
+
+
 class ResolutionContext:
     """
     Information about the current resolution.
@@ -106,6 +118,11 @@ class ResolutionContext:
         """
         Register an error during the current execution.
         """
+        if node or path is not None:
+            # The same exception instance can be raised by multiple resolvers
+            # (and across queries): record the location and path of this
+            # occurrence on a copy and leave the raised instance untouched.
+            err = _copy_error(err)
         if node:
             if not err.nodes:
                 err.nodes = [node]
